@@ -118,6 +118,14 @@ CHECKS = {
               "driver (colliding keys, invalid strings) and field-level collisions by C15."),
         note="Sampled; later-wins/merge values under AllowDuplicateNames are checked for success and option-independence, not against a predicted value.",
         design_ref="5 (C08)"),
+    "C09": dict(
+        technique="two implementations driven by the same call programs; TLC validates each step against the refinement relation of V1.tla and calibrates the specification's automaton against the reference implementation",
+        text=("github.com/go-json-experiment/json/v1 and the toolchain's encoding/json execute the same programs - byte-string functions, Marshal/MarshalIndent of random values, Unmarshal into "
+              "pre-populated targets, Decoder Token/More/Decode/InputOffset interleavings with UseNumber/DisallowUnknownFields, Encoder Encode/SetIndent/SetEscapeHTML sequences. TLC requires per "
+              "step: succeed or fail together, identical bytes or identically rendered values on success, untouched target on syntactically invalid input, and (calibration) that classic Valid "
+              "equals the specification's recogniser. Differences found on the unchanged tree were triaged: one repaired (fix: commit), two recorded as known findings with signatures computed by TLC."),
+        note="Refinement checking between two executions (clause A of DESIGN 5/C09); the stream API state machine is not modelled independently. Sampled.",
+        design_ref="5 (C09), 4.8"),
     "C10": dict(
         technique="TLA+ digit-string number semantics (normal form, ECMA-262 layout, integer syntax and ranges, Token.Int/Uint classification) with TLC-checked layout inverse and range twin; exhaustive replay of integer literals near every bound; TLC trace validation of float formatting/parsing with projection-supplied rounding facts",
         text=("Numbers.tla decides, without arithmetic wider than a digit, whether a literal is an integer spelling, whether it fits int8..uint64 (refusing fractions, exponents and any minus "
